@@ -1872,7 +1872,7 @@ struct Value {
 
                         while (obj_item != obj_end) {
                             if ((obj_item != nullptr) && !(obj_item->Value.isUndefined())) {
-                                if (count != grouped_key_index) {
+                                if (!(obj_item->Key.IsEqual(key, length))) {
                                     new_sub_obj[obj_item->Key] = obj_item->Value;
                                 } else if (!(obj_item->Value.SetCharAndLength(str, str_len))) {
                                     stream.Clear();
